@@ -940,6 +940,17 @@ impl<'a> G<'a> {
     fn block(&mut self, w: &mut Tw, depth: usize, file: usize) {
         let m = self.sc.mark();
         self.block_inner(w, depth, file);
+        if self.sw.nested_includes && self.r.chance(1, 8) {
+            // a nested block that ends the block (the parser takes it for a tail expression),
+            // with an include in it: one more place below global scope (defect D6)
+            w.push("{ ");
+            if self.r.chance(1, 2) {
+                let n = self.fresh("t");
+                w.push(&format!("int[32] {}; ", n));
+            }
+            self.nested_include(w, file);
+            w.push(" } ");
+        }
         self.sc.reset(m);
     }
 
